@@ -393,3 +393,31 @@ def aim_window(R, p):
     k = R.choice([1, 2, 3, 4, 5, 10, 20, 44])
     win = R.choice([0, R.randrange(65536), d * k, d * k, d * k, 8192, 65535, 5840, 14600, 29200])
     return win if 0 <= win <= 65535 else R.randrange(65536)
+
+
+# --------------------------------------------------------------------------- Coq literals (in-Coq cross-check of extraction)
+def coq_z(v):
+    return "(%d)" % v
+
+
+def coq_zlist(l):
+    return "[" + "; ".join(coq_z(x) for x in l) + "]"
+
+
+def coq_pkt(p):
+    return ("{| p_ver := %d; p_olen := %d; p_ttl := %d; p_win := %d; p_layout := %s; p_mss := %d; p_ws := %d; p_ts1 := %d; p_eol_pad := %d; "
+            "p_hdrlen := %d; p_payload := %s; p_quirks := %d%%N; p_syn_mss := %d |}") % (
+        p["ver"], p["olen"], p["ttl"], p["win"], coq_zlist(p["layout"]), p["mss"], p["ws"], p["ts1"], p["eol"], p["hdr"],
+        "true" if p["pay"] else "false", p["quirks"], p["syn_mss"])
+
+
+def coq_sig(s):
+    eol = s["eol"] if 0 in s["layout"] else 0
+    return ("{| s_ver := %s; s_olen := %d; s_ttl := %d; s_bad_ttl := %s; s_wtype := %s; s_wsize := %s; s_wscale := %s; s_layout := %s; "
+            "s_mss := %s; s_eol_pad := %d; s_pay := %s; s_quirks := %d%%N |}") % (
+        coq_z(s["ver"]), s["olen"], s["ttl"], "true" if s["bad_ttl"] else "false", ["WNormal", "WAny", "WMod", "WMss", "WMtu"][s["wtype"]],
+        coq_z(s["wsize"]), coq_z(s["wscale"]), coq_zlist(s["layout"]), coq_z(s["mss"]), eol, coq_z(s["pay"]), s["quirks"])
+
+
+def coq_wm(w):
+    return "(%s, %s)" % (coq_z(w[0]), "true" if w[1] else "false")
